@@ -186,10 +186,14 @@ def register(db):
     db.total_getattr.add("ModelObj")  # dataclass instances have an attribute for every field
 
     def one_field(ex, st, recv, args, kwargs):
-        yield st, (ex.db.exports_static["fld"],)
+        if ex.cur_contract is not None and ex.cur_contract.variant == "two-fields":
+            yield st, (ex.db.exports_static["fld"], ex.db.exports_static["fld2"])
+        else:
+            yield st, (ex.db.exports_static["fld"],)
 
     FLD = Opaque("Field", z3.Const("the_field", z3sort(("u", "Field"))))
-    db.exports_static = {"fld": FLD}
+    FLD2 = Opaque("Field", z3.Const("the_second_field", z3sort(("u", "Field"))))
+    db.exports_static = {"fld": FLD, "fld2": FLD2}
     db.opaque_attrs[("ClassType", "get_fields")] = ("method", None)
     db.opaque_methods[("ClassType", "get_fields")] = one_field
 
@@ -212,4 +216,48 @@ def register(db):
         ],
         raises={}, properties=P,
         note="a model with one field; getattr default (the types set) arises only for a missing attribute and is excluded",
+    ))
+
+    def model_obj2(mk, base):
+        mk.exports["fld"], mk.exports["fld2"] = FLD, FLD2
+        mk.exports["unset"] = UNSET
+        return mk.value("opaque:ModelObj", "obj")
+
+    D2, V2 = D.replace("fld,", "fld2,"), V.replace("fld.name", "fld2.name")
+    EQ2 = EQ_DEFAULT.replace(D, D2).replace(V, V2)
+    SHOWN1, SHOWN2 = f"(fld.init and not {EQ_DEFAULT})", f"(fld2.init and not {EQ2})"
+    db.add(Contract(
+        f"{PS}.repr_model", variant="two-fields",
+        params={"self": serializer, "obj": model_obj2, "level": 0, "types": "opaque:PySet"},
+        ensures=[
+            ("both-rendered-in-field-order-separated-by-one-comma",
+             f"implies({SHOWN1} and {SHOWN2}, len(result) == 6 and result[1] == '    ' + fld.name + '=' and result[2] == uf('rendered', 'str', {V}) "
+             f"and result[3] == ',\\n    ' + fld2.name + '=' and result[4] == uf('rendered', 'str', {V2}))"),
+            ("no-leading-comma-when-the-first-is-elided",
+             f"implies(not {SHOWN1} and {SHOWN2}, len(result) == 4 and result[1] == '    ' + fld2.name + '=' and result[2] == uf('rendered', 'str', {V2}))"),
+            ("no-trailing-comma-when-the-second-is-elided",
+             f"implies({SHOWN1} and not {SHOWN2}, len(result) == 4 and result[1] == '    ' + fld.name + '=' and result[2] == uf('rendered', 'str', {V}))"),
+            ("nothing-when-both-are-elided", f"implies(not {SHOWN1} and not {SHOWN2}, len(result) == 2)"),
+            ("constructor-call", "result[0] == obj.__class__.__qualname__ + '(\\n' and result[-1] == '\\n)'"),
+        ],
+        raises={}, properties=P,
+        note="a model with two fields: which fields appear, in which order, and where the separators go",
+    ))
+
+    def two_entries(mk, base):
+        PD = __import__("pyvc.values", fromlist=["PDict"]).PDict
+        k, v, k2, v2 = (mk.value("opaque:Any", n) for n in ("key", "val", "key2", "val2"))
+        mk.exports.update(the_key=k, the_val=v, the_key2=k2, the_val2=v2)
+        return mk.st.alloc(PD({k: v, k2: v2}))
+
+    db.add(Contract(
+        f"{PS}.repr_mapping", variant="two-entries",
+        params={"self": serializer, "obj": two_entries, "level": 0, "types": "opaque:PySet"},
+        ensures=[
+            ("entries-in-order-each-key-colon-value-comma",
+             "len(result) == 12 and result[0] == '{\\n' and result[1] == '    ' and result[2] == uf('rendered', 'str', the_key) and result[3] == ': ' "
+             "and result[4] == uf('rendered', 'str', the_val) and result[5] == ',\\n' and result[6] == '    ' and result[7] == uf('rendered', 'str', the_key2) "
+             "and result[8] == ': ' and result[9] == uf('rendered', 'str', the_val2) and result[10] == ',\\n' and result[11] == '}'"),
+        ],
+        raises={}, properties=P,
     ))
